@@ -179,6 +179,12 @@ class Run:
         legal: that is a violation, unless the harness itself raised it."""
         if isinstance(exc, (SimCrash, HarnessError, KeyboardInterrupt, SystemExit)):
             raise exc
+        if getattr(exc, "qsim_emulates_torch", False) or "Expected p_in >= 0 && p_in <= 1" in str(exc):
+            # training diverged numerically (NaN probabilities): torch refuses to sample; this is
+            # about the learning rate, not about any property - the run is not judged
+            self.inconclusive["diverged_nan_probability"] += 1
+            self.log.add("DIVERGED", what)
+            return
         if raised_by_harness(exc):
             raise HarnessError(
                 f"harness raised inside {what}: {type(exc).__name__}: {exc}\n"
